@@ -115,6 +115,29 @@ def gen_cases(ctx):
         yield {"stream": STREAM, "op": "term", "names": names, "key": gen_key(rng, names, len(names))}
 
 
+def gen_late_cases(ctx):
+    """`Engine.output_values` of an engine that HAS input variables (drawn after every earlier stream of the property):
+    the rows of the result are those of the batch, and the batch is what the input variables hold as much as what the
+    output variables hold - also when every output variable holds a single value (disabled, or without activations) while
+    the input variables hold `n` rows, when the input variables hold floats, and when the values do not fit together
+    (an input of 2 rows next to an output of 3: `ValueError`, whichever kind of variable holds them); `Engine.values` on
+    the same engines"""
+    rng = ctx.rng
+    for _ in range(ctx.scale(120, 1200)):
+        n = rng.choice([0, 1, 2, 3, 4])
+        k = rng.random()
+        if k < 0.35:
+            # no output variable holds a value per row
+            ins = [["v", [num(rng) for _ in range(n)]] for _ in range(rng.choice([1, 1, 2, 3]))]
+            outs = [rng.choice([[rng.choice(["f", "0d", "f64"]), num(rng)], ["v", [num(rng)]]]) for _ in range(rng.choice([1, 1, 2, 3]))]
+        elif k < 0.8:
+            ins = [gen_value(rng, n, scalars=rng.random() < 0.3) for _ in range(rng.choice([0, 1, 1, 2, 3]))]
+            outs = [gen_value(rng, n) for _ in range(rng.choice([0, 1, 1, 2, 3]))]
+        else:
+            ins, outs = gen_values(rng, rng.choice([1, 2])), gen_values(rng, rng.choice([0, 1, 2]))
+        yield {"stream": STREAM, "op": rng.choice(["output_values", "output_values", "values"]), "ins": ins, "outs": outs}
+
+
 # ------------------------------------------------------------------------------------------------ implementation
 
 def py_key(k):
@@ -244,7 +267,8 @@ def model_line(case):
     if op == "input_values":
         return C.sx(["eio-input-values", [value_sx(v) for v in case["ins"]]])
     if op == "output_values":
-        return C.sx(["eio-output-values", [value_sx(v) for v in case["outs"]]])
+        # the values of the input variables take part in the broadcast (an older case without "ins": no input variables)
+        return C.sx(["eio-output-values", [value_sx(v) for v in case.get("ins", [])], [value_sx(v) for v in case["outs"]]])
     if op == "values":
         return C.sx(["eio-values", [value_sx(v) for v in case["ins"]], [value_sx(v) for v in case["outs"]]])
     return C.sx(["eio-set-input-values", [[lr, lo, hi] for lr, lo, hi in case["ins"]], array_sx(case["array"])])
@@ -321,10 +345,12 @@ def run(ctx, more=None):
     st = ctx.stats
     cases = corpus_cases("C02", STREAM) + list(gen_cases(ctx))
     more_lines, judge = more(ctx) if more else ([], None)
-    outs = ctx.driver.eval([model_line(c) for c in cases] + more_lines)
+    late = list(gen_late_cases(ctx))          # drawn last: the streams above are what they were for a seed
+    outs = ctx.driver.eval([model_line(c) for c in cases] + more_lines + [model_line(c) for c in late])
     if judge:
-        judge(outs[len(cases):])
-    outs = outs[:len(cases)]
+        judge(outs[len(cases):len(cases) + len(more_lines)])
+    outs = outs[:len(cases)] + outs[len(cases) + len(more_lines):]
+    cases = cases + late
     mism, per_op = [], {}
     for case, line in zip(cases, outs):
         st.count(f"{STREAM}:{case['op']}")
